@@ -97,7 +97,7 @@ def run(prop, units, results, seed):
                 violations.append(d)
         except Exception as e:
             undecided.append("transfer differential could not run: %r" % (e,))
-    if prop in ("C05", "C06", "C13", "C16"):
+    if prop in ("C05", "C06", "C13", "C15", "C16"):
         try:
             from . import progsearch
 
@@ -107,7 +107,7 @@ def run(prop, units, results, seed):
                 "programs_run_on_real_binary": rep["runs"],
                 "failures": len(rep["failures"]),
                 "rule": "a small fixed corpus of Quiver programs run on quiv built from /repo's working tree: "
-                + ("tail-recursive shapes at N=40 and N=2000, results and peak frames/locals/stack must agree (only the main process's peaks are visible through `quiv run --profile`)" if prop == "C16" else "pinned matches between integers, binaries (literal / concat / slice / repeat / zero-filled), labelled and nested tuples, closures with captures and refs built in different ways must give the verdict structural equality gives" if prop == "C13" else "selects over finished / unfinished processes, elapsed / pending timeouts, body-less and filtering receivers with messages queued in a known order must yield what written-order priority, first-admissible-message and verdict-only filters prescribe, and leave the other messages receivable in their order; one timeout must not fire before its duration" if prop == "C05" else "binaries shared, sliced, captured, spawned, sent and selected must read back the expected bytes; a debug build also runs check_refcounts at every process completion")
+                + ("tail-recursive shapes at N=40 and N=2000, results and peak frames/locals/stack must agree (only the main process's peaks are visible through `quiv run --profile`)" if prop == "C16" else "pinned matches between integers, binaries (literal / concat / slice / repeat / zero-filled), labelled and nested tuples, closures with captures and refs built in different ways must give the verdict structural equality gives" if prop == "C13" else "selects over finished / unfinished processes, elapsed / pending timeouts, body-less and filtering receivers with messages queued in a known order must yield what written-order priority, first-admissible-message and verdict-only filters prescribe, and leave the other messages receivable in their order; one timeout must not fire before its duration" if prop == "C05" else "processes that fail (a partial builtin, an effect on a closed resource, inside a receive filter) with awaiters before, after and two levels up, and bystanders that must still run to their results; plus the C06 corpus, because a drifting count is a debug-build worker panic" if prop == "C15" else "binaries shared, sliced, captured, spawned, sent and selected must read back the expected bytes; a debug build also runs check_refcounts at every process completion")
                 + "; BOUNDED smoke evidence and a source of concrete failing programs, never counted as proved",
             }
             for f in rep["failures"]:
